@@ -167,6 +167,7 @@ class C07(Prop):
         w2.update({"clone": 0.0, "policy": 0.0, "ns": 0.0, "gc": 0.3})
         cfg["weights2"] = w2
         cfg["second_steps"] = rng.choice([0, 5, 15, 30])
+        cfg["lookups_when"] = rng.choice(["at_clone", "at_end"]) if cfg["second_steps"] else "at_clone"
         cfg["steps"] = 10 ** 6
         return cfg
 
@@ -175,6 +176,37 @@ class C07(Prop):
 
     def start(self, w, cfg):
         self.clone_state = None
+        self.cfg = cfg
+        self.lookups_pending = None
+
+    def finish(self, w, cfg):
+        if self.lookups_pending is None:
+            return
+        # after the second history: on each side an exact lookup of a value carried by exactly one sibling
+        # returns exactly that sibling
+        for n in self.lookups_pending:
+            scopes = [n] + [l for l in n.libraries] + [d for l in n.libraries for d in l.definitions]
+            for a in scopes:
+                for ck, acc, cls, getter in SCOPES[kind_of(a)]:
+                    kids = list(getattr(a, acc))
+                    for key in KEYS:
+                        by_val = {}
+                        for x in kids:
+                            if key in x and isinstance(x[key], str):
+                                by_val.setdefault(x[key], []).append(x)
+                        for v, xs in by_val.items():
+                            if len(xs) != 1:
+                                continue
+                            if key == "EDIF.identifier" and sum(1 for y in kids if key in y and isinstance(y[key], str)
+                                                                 and y[key].lower() == v.lower()) != 1:
+                                continue   # case variants of one identifier: the policy decides which ones match
+                            got = list(getter(a, v, key=key))
+                            if len(got) != 1 or got[0] is not xs[0]:
+                                raise Violation("C07.netlist.lookup_after_edits", "%s/%s" % (ck, key),
+                                                "after the second history an exact lookup of %r in %s returns %d "
+                                                "elements instead of the one sibling that carries it" % (
+                                                    v, w.name_of(a), len(got)))
+            w.count("probe.lookups_after_second_history")
 
     # ---------------------------------------------------------------------------------
     def before(self, w, ev):
@@ -434,8 +466,11 @@ class C07(Prop):
                                     "a %s reachable from the copy is not part of the copy (%s)" % (
                                         kind_of(o), w.name_of(o)))
             check_mirror(objs, disc, w.name_of, P="C07.netlist.wellformed")
-            # (6) queries: exact-name lookups and hierarchical counts agree
-            for a, b in self._scopes(s, c):
+            # (6) queries: exact-name lookups and hierarchical counts agree.  The lookups make the library build the
+            # name indexes of the copy (it fills them lazily): in half of the runs they are asked only after the
+            # second history, so that the later edits also meet a copy nobody has queried yet.
+            self.lookups_pending = (s, c) if self.cfg.get("lookups_when") == "at_end" else None
+            for a, b in (self._scopes(s, c) if self.lookups_pending is None else ()):
                 for ck, acc, cls, getter in SCOPES[kind_of(a)]:
                     for key in KEYS:
                         vals = set(x[key] for x in getattr(a, acc) if key in x and isinstance(x[key], str))
